@@ -2,6 +2,7 @@ package main
 
 import (
 	"fmt"
+	"go/constant"
 	"go/token"
 	"go/types"
 	"sort"
@@ -589,4 +590,213 @@ func init() {
 			}
 		},
 	})
+}
+
+// evalBoolOnFields interprets a small side-effect-free predicate over the fields of its receiver (comparisons of
+// fields with constants, &&, ||, if/else) for given constant field values. ok=false when the shape is outside that.
+func evalBoolOnFields(f *ssa.Function, fields map[string]int64) (result bool, ok bool) {
+	if len(f.Blocks) == 0 {
+		return false, false
+	}
+	vals := map[ssa.Value]interface{}{}
+	var get func(v ssa.Value) (interface{}, bool)
+	get = func(v ssa.Value) (interface{}, bool) {
+		if x, ok := vals[v]; ok {
+			return x, true
+		}
+		if cv, ok := v.(*ssa.Const); ok && cv.Value != nil {
+			if cv.Value.Kind() == constant.Bool {
+				return constant.BoolVal(cv.Value), true
+			}
+			if i, ok := constInt(cv); ok {
+				return i, true
+			}
+		}
+		return nil, false
+	}
+	b, prev := f.Blocks[0], (*ssa.BasicBlock)(nil)
+	for steps := 0; steps < 200; steps++ {
+		for _, ins := range b.Instrs {
+			switch x := ins.(type) {
+			case *ssa.Phi:
+				for i, p := range b.Preds {
+					if p == prev {
+						if v, ok := get(x.Edges[i]); ok {
+							vals[x] = v
+						}
+					}
+				}
+			case *ssa.FieldAddr:
+			case *ssa.UnOp:
+				if x.Op == token.MUL {
+					if fa, ok := x.X.(*ssa.FieldAddr); ok && resolve(fa.X) == ssa.Value(f.Params[0]) {
+						if c, ok := fields[fieldName(fa.X.Type(), fa.Field)]; ok {
+							vals[x] = c
+						}
+					}
+				} else if x.Op == token.NOT {
+					if v, ok := get(x.X); ok {
+						if bv, ok := v.(bool); ok {
+							vals[x] = !bv
+						}
+					}
+				}
+			case *ssa.BinOp:
+				l, ok1 := get(x.X)
+				r, ok2 := get(x.Y)
+				if ok1 && ok2 {
+					li, lok := l.(int64)
+					ri, rok := r.(int64)
+					if lok && rok {
+						switch x.Op {
+						case token.EQL:
+							vals[x] = li == ri
+						case token.NEQ:
+							vals[x] = li != ri
+						}
+					}
+				}
+			case *ssa.If:
+				v, ok := get(x.Cond)
+				bv, isB := v.(bool)
+				if !ok || !isB {
+					return false, false
+				}
+				prev = b
+				if bv {
+					b = b.Succs[0]
+				} else {
+					b = b.Succs[1]
+				}
+			case *ssa.Jump:
+				prev = b
+				b = b.Succs[0]
+			case *ssa.Return:
+				v, ok := get(x.Results[0])
+				bv, isB := v.(bool)
+				return bv, ok && isB
+			case *ssa.DebugRef:
+			default:
+				return false, false
+			}
+		}
+	}
+	return false, false
+}
+
+func init() {
+	register(&Rule{
+		ID: "flow.stat-need-agrees-with-generators", Props: []string{"C11", "C02", "C14"}, Floor: 6,
+		Doc: "Rule.needStatistic (which decides, through isStatReusable, whether a controller's statistic may be donated to another rule on reload) agrees with the built-in generators: for every (TokenCalculateStrategy, ControlBehavior) key registered in flow.init, the generator binds a real statistic (generateStatFor / the donated one) exactly when needStatistic is true for that key, and the shared no-op statistic exactly when it is false. If the predicate says 'has a statistic' for a no-op one, a reload donates the no-op to a Reject rule, which then reads 0 forever and admits everything",
+		Run: func(c *Ctx) {
+			var inits []*ssa.Function
+			for _, f := range c.P.FuncsIn(modPath + "/core/flow") {
+				if f.Parent() == nil && strings.HasPrefix(f.Name(), "init") {
+					inits = append(inits, f)
+				}
+			}
+			var initF *ssa.Function
+			if len(inits) > 0 {
+				initF = inits[0]
+			}
+			need := c.P.Func("core/flow.(*Rule).needStatistic")
+			gen := c.P.Func("core/flow.generateStatFor")
+			nop := c.P.Global("core/flow.nopStat")
+			gm := c.P.Global("core/flow.tcGenFuncMap")
+			if initF == nil || need == nil || gen == nil || nop == nil || gm == nil {
+				c.AnchorLost("flow.init / needStatistic / generateStatFor / nopStat / tcGenFuncMap")
+				return
+			}
+			n := 0
+			var initFns []*ssa.Function
+			for _, f := range inits {
+				initFns = append(initFns, withAnon(f)...)
+			}
+			for _, fn := range initFns {
+				eachInstr(fn, func(ins ssa.Instruction) {
+					mu, ok := ins.(*ssa.MapUpdate)
+					if !ok {
+						return
+					}
+					if ld, ok := mu.Map.(*ssa.UnOp); !ok || ld.X != ssa.Value(gm) {
+						return
+					}
+					// key: load of a local struct whose fields were stored with constants
+					fields := map[string]int64{}
+					if ld, ok := mu.Key.(*ssa.UnOp); ok {
+						if al, ok := ld.X.(*ssa.Alloc); ok {
+							for _, r := range refsOf(al) {
+								if fa, ok := r.(*ssa.FieldAddr); ok {
+									for _, r2 := range refsOf(fa) {
+										if st, ok := r2.(*ssa.Store); ok {
+											if k, ok := constInt(st.Val); ok {
+												fields[fieldName(fa.X.Type(), fa.Field)] = k
+											}
+										}
+									}
+								}
+							}
+						}
+					}
+					var g *ssa.Function
+					switch v := stripConv(mu.Value).(type) {
+					case *ssa.MakeClosure:
+						g, _ = v.Fn.(*ssa.Function)
+					case *ssa.Function:
+						g = v
+					}
+					n++
+					key := fmt.Sprintf("core/flow.init / generator#%d", n)
+					if g == nil || len(fields) != 2 {
+						c.Undecided(key, mu.Pos(), "cannot read the registration (key fields %v)", fields)
+						return
+					}
+					// the Rule fields carry the same names with an upper-case initial
+					rf := map[string]int64{}
+					for k, v := range fields {
+						rf[strings.ToUpper(k[:1])+k[1:]] = v
+					}
+					want, ok := evalBoolOnFields(need, rf)
+					if !ok {
+						c.Undecided(key, need.Pos(), "needStatistic is not a simple predicate over the key fields any more")
+						return
+					}
+					usesNop, usesReal := false, false
+					for _, h := range withAnon(g) {
+						eachInstr(h, func(x ssa.Instruction) {
+							if ld, ok := x.(*ssa.UnOp); ok && ld.X == ssa.Value(nop) {
+								usesNop = true
+							}
+							if ci, ok := x.(ssa.CallInstruction); ok && isStaticCallTo(ci, gen) {
+								usesReal = true
+							}
+						})
+					}
+					sn := constName(fieldTypeOf(c.P, "core/flow.Rule", "TokenCalculateStrategy"), rf["TokenCalculateStrategy"])
+					bn := constName(fieldTypeOf(c.P, "core/flow.Rule", "ControlBehavior"), rf["ControlBehavior"])
+					c.Check(want == usesReal && want != usesNop, key, mu.Pos(), "%s+%s: needStatistic=%v, generator binds a real statistic=%v, the no-op statistic=%v", sn, bn, want, usesReal, usesNop)
+				})
+			}
+			if n == 0 {
+				c.Violate("core/flow.init / generators", initF.Pos(), "no generator registration found")
+			}
+		},
+	})
+}
+
+func fieldTypeOf(P *Program, named, field string) types.Type {
+	n := P.Named(named)
+	if n == nil {
+		return types.Typ[types.Int]
+	}
+	st, ok := n.Underlying().(*types.Struct)
+	if !ok {
+		return types.Typ[types.Int]
+	}
+	for i := 0; i < st.NumFields(); i++ {
+		if st.Field(i).Name() == field {
+			return st.Field(i).Type()
+		}
+	}
+	return types.Typ[types.Int]
 }
